@@ -11,7 +11,7 @@ CLAIMS = {
             "count_true/fold_or/fold_and/alldifferent build trees whose reference denotation equals the Python "
             "meaning of the call; (Z3M) both integer bounds are asserted for every IntVar, the model is read back "
             "into sol for every variable, False only on unsat; find_answer hands every variable and constraint to a fresh backend and returns its verdict for 0/1/2 variables x 0/1/3 constraints; (VID) variable ids equal list positions in every "
-            "history (VID-4) expression trees are immutable: op/operands stored only by Expr.__init__, no in-place mutation of an operands list anywhere, no in-place operator dunder returning self. Every arity an operator's meaning allows is translated (up to 3), and 13 nested trees are translated and compared with their meaning. Every scalar dunder is also applied to compound receivers and operands built with the library's own operators (comparisons, &, |, ^, ==, ~, x - y, x + y, -x). Constraints that convert to Python constants are driven through add_constraint and solve(): a False must reach z3 or the answer be False."
+            "history (VID-4) expression trees are immutable: op/operands stored only by Expr.__init__, no in-place mutation of an operands list anywhere, no in-place operator dunder returning self. Every arity an operator's meaning allows is translated (up to 3), and 13 nested trees are translated and compared with their meaning. Every scalar dunder is also applied to compound receivers and operands built with the library's own operators (comparisons, &, |, ^, ==, ~, x - y, x + y, -x). Constraints that convert to Python constants are driven through add_constraint and solve(): a False must reach z3 or the answer be False. (VID-6) Solver.int_var / bool_array / int_array declare exactly the variables, domains, order, array class and shape the call names."
         ),
         note="Trusted: z3 itself and its coercion of Python literals; the E8 evaluator and the reference table REF in sa/rules/exprmodel.py.",
         technique="static analysis: construction-site enumeration + finite-domain abstract evaluation of translator handlers (ast)",
@@ -44,7 +44,7 @@ CLAIMS = {
             "(OPC-5) is_bool_op, is_int_op, _make_bool_expr, _make_int_expr and _elementwise accept exactly each operator's "
             "reference signature (all kind vectors up to arity 3); (OPC-7/AGG) count_true, fold_or, fold_and, alldifferent "
             "on every mix of literals, expressions, arrays and nestings up to 3 items incl. empty forms, and over arrays of every shape with axis lengths 0..3 (function and method forms); conv2d windows and "
-            "shapes; four_neighbors = in-bounds orthogonal neighbours with sibling order agreement, also after the caller edited the list it got (no result object shared between calls; functools.lru_cache is modelled). OPC-6A also passes operands whose elements are compound expressions of the same family built with the library's own operators (A op (B - C), A op (B + C), A op (B & C), A op (B | C))."
+            "shapes; then / cond with the array in every operand position of the function forms and scalar-receiver methods; four_neighbors = in-bounds orthogonal neighbours with sibling order agreement, also after the caller edited the list it got (no result object shared between calls; functools.lru_cache is modelled). OPC-6A also passes operands whose elements are compound expressions of the same family built with the library's own operators (A op (B - C), A op (B + C), A op (B & C), A op (B | C))."
         ),
         note="Trusted: the abstract evaluator and the reference table REF; the element kernel is uniform in the element index (two-element arrays) and conv2d/four_neighbors are judged on arrays up to 3x3/2x4.",
         technique="static analysis: finite-domain abstract evaluation of operator methods against a reference denotation (ast)",
